@@ -239,6 +239,20 @@ def storage_iface(ctx, rr):
         good_ = t_.endswith('%self.block_size!=0') or t_.endswith('%self.block_size>0') or (t_.startswith('bool(') and t_.endswith('%self.block_size)')) \
             or t_.endswith('%self.block_size>=1')
         wrong_ = t_.endswith('%self.block_size==0') or t_.startswith('not') or '//' in t_
+        # "blocks * block size differs from the length": right only if the block count is an integer (floor) division
+        import re as _rec
+        mcb = _rec.match(r'^self\.count_blocks\(\)\*self\.block_size!=(self\.__len__\(\)|len\(self\))$', t_) or \
+            _rec.match(r'^(self\.__len__\(\)|len\(self\))!=self\.count_blocks\(\)\*self\.block_size$', t_)
+        if mcb and not good_ and not wrong_:
+            cb_ = P.classes['FileStorage'].get('count_blocks')
+            floor_ = cb_ is not None and any(isinstance(b_, ast.BinOp) and isinstance(b_.op, ast.FloorDiv) for b_ in ast.walk(cb_.node)) \
+                and not any(isinstance(b_, ast.BinOp) and isinstance(b_.op, ast.Div) for b_ in ast.walk(cb_.node))
+            if floor_:
+                good_ = True
+            else:
+                wrong_ = True
+                bad.append((None, 'the verdict compares count_blocks() * block_size with the length, but count_blocks() is a true division: the product always equals the length, '
+                                  'so a partially written block is never reported'))
         if not good_ and not wrong_:
             raise AnalysisError('R-STORAGE-IFACE: verdict expression `%s` of check_for_corruption not recognised' % t_)
         rows = []
